@@ -341,8 +341,19 @@ impl<'a> Gen3<'a> {
 }
 
 pub fn generate(prop: &str, seed: u64) -> W3Scn {
+    generate_t(prop, seed, false)
+}
+
+/// `thorough`: additionally allows batches of 65536 instructions (about a second per run; too slow for the quick tier)
+pub fn generate_t(prop: &str, seed: u64, thorough: bool) -> W3Scn {
     let mut p = profile3(prop);
     let mut r = SimRng::new(seed ^ 0x5733_5733);
+    if prop == "C10" && r.chance(0.12) {
+        // oversized steps (batch > step size) are valid for C10: nothing may become visible early, and the snapshot handed
+        // to agents must equal the live book after every step, whatever happened to the surplus
+        p.overflow = true;
+        p.max_steps = 12;
+    }
     if prop == "C14" && r.chance(0.2) {
         // the shared clock under oversized steps (batch > step size): intra-step stamps run into the next step
         p.overflow = true;
@@ -368,13 +379,25 @@ pub fn generate(prop: &str, seed: u64) -> W3Scn {
     let vol_kind = if narrow { r.range(0, 1) as u8 } else { r.range(0, 2) as u8 };
     // large-batch runs: one step of the run receives hundreds to thousands of instructions (sizes around powers of two
     // are favoured: buffers, chunked processing and capacity limits live there)
+    let mut big_pure = false;
     let big: Option<usize> = if !p.overflow && p.big_batch > 0.0 && r.chance(p.big_batch) {
-        let base = *r.pick(&[128u64, 256, 512, 1024, 1024, 2048, 4096, 4096, 4096, 8192]);
+        // (65536 = the wrap-around of a 16-bit counter; rare, it costs about a second per run)
+        let base = *r.pick(&[128u64, 256, 256, 512, 1024, 1024, 2048, 4096, 4096, 4096, 8192, 65536]);
+        let base = if base >= 65536 && !thorough { 8192 } else { base };
+        // "pure" large batches consist of placements only, so that the number of *effective* instructions is exactly the
+        // batch size
+        big_pure = r.chance(0.5);
         Some(match r.below(4) {
             0 => base - 1,
             1 => base,
             2 => base + 1 + r.below(3),
-            _ => r.range(100, 6000),
+            _ => {
+                if base >= 65536 {
+                    base
+                } else {
+                    r.range(100, 6000)
+                }
+            }
         } as usize)
     } else {
         None
@@ -465,7 +488,7 @@ pub fn generate(prop: &str, seed: u64) -> W3Scn {
         let mut guard = 0;
         while g.pending.len() < nb && guard < 4 * nb + 4 {
             guard += 1;
-            if is_big && g.r.chance(0.85) {
+            if is_big && (big_pure || g.r.chance(0.85)) {
                 // the bulk of a large batch: passive orders (and a few takers), so that the book stays meaningful
                 if g.r.chance(0.9) {
                     g.maker()
